@@ -346,14 +346,61 @@ pub struct ClusterCase {
     pub extra: u16,
     pub start: u64,
     pub wseed: u64,
+    /// 1: instead of a cluster, `extra`+769.. ordinary keys whose WEIGHT depends on their home slot (the keys in the
+    /// lowest slots are heavy): a purge that samples counters in slot order sees a biased sample
+    #[serde(default)]
+    pub mode: u8,
 }
 
 fn cluster_case() -> impl Strategy<Value = ClusterCase> {
     (prop_oneof![1 => 3u8..=8, 3 => 9u8..=10, 1 => Just(11u8)], any::<u16>(), prop_oneof![1 => 1u8..=254, 2 => Just(255u8)], prop_oneof![2 => Just(0u16), 2 => 0u16..=200, 1 => 0u16..=3000], any::<u64>(), any::<u64>())
-        .prop_map(|(lg_max, slot, cluster_q, extra, start, wseed)| ClusterCase { lg_max, slot, cluster_q, extra, start, wseed })
+        .prop_map(|(lg_max, slot, cluster_q, extra, start, wseed)| ClusterCase { lg_max, slot, cluster_q, extra, start, wseed, mode: (wseed % 5 == 0) as u8 })
+}
+
+/// mode 1: weights ordered by home slot.
+fn run_slot_weights(c: &ClusterCase, info: &mut CaseInfo) -> Result<(), Fail> {
+    let lg = c.lg_max.clamp(6, 10);
+    let size = 1u64 << lg;
+    let cap = (size * 3 / 4) as usize;
+    let n_keys = cap + 1 + (c.extra as usize % (cap / 2 + 1));
+    let mut sm = SplitMix(c.wseed);
+    let mut keys: Vec<u64> = Vec::with_capacity(n_keys);
+    let mut seen = BTreeSet::new();
+    while keys.len() < n_keys {
+        let k = sm.next();
+        if seen.insert(k) {
+            keys.push(k);
+        }
+    }
+    let home = |k: u64| crate::kit::refhash::murmur3_x64_128(&k.to_le_bytes(), crate::kit::refhash::DEFAULT_SEED).0 & (size - 1);
+    let mut by_slot = keys.clone();
+    by_slot.sort_by_key(|k| home(*k));
+    // between a quarter and 3/8 of the capacity is heavy: below the true median rank, above a biased sample's
+    let heavy_n = cap / 3 + (c.cluster_q as usize * cap / 255) / 24;
+    let heavy: BTreeSet<u64> = by_slot.iter().take(heavy_n).copied().collect();
+    let pos: HashMap<u64, u64> = keys.iter().enumerate().map(|(i, k)| (*k, i as u64)).collect();
+    let conv = |id: u64| keys[id as usize];
+    let mut side: Side<u64> = Side { sk: FrequentItemsSketch::new(size as usize), truth: HashMap::new(), total: 0, sizes: [lg].into_iter().collect(), merged: false };
+    let domain = keys.len() as u64;
+    for (i, k) in keys.iter().enumerate() {
+        let w = if heavy.contains(k) { 1000 } else { 1 };
+        side.sk.update_with_count(*k, w);
+        *side.truth.entry(pos[k]).or_insert(0) += w;
+        side.total += w;
+        if i + 1 == cap || i + 1 == cap + 1 || i + 1 == keys.len() {
+            check_side(&side, domain, &conv, &format!("map size {size}, {} keys, the {heavy_n} keys with the lowest home slots weigh 1000, after {} updates", keys.len(), i + 1))?;
+        }
+    }
+    info.label("slot_ordered_weights");
+    info.label(format!("lg_max={lg}"));
+    info.nontrivial = side.sk.maximum_error() > 0;
+    Ok(())
 }
 
 fn run_cluster(c: &ClusterCase, info: &mut CaseInfo) -> Result<(), Fail> {
+    if c.mode == 1 {
+        return run_slot_weights(c, info);
+    }
     let size = 1u64 << c.lg_max;
     let cap = (size * 3 / 4) as usize;
     let n_cluster = ((cap * c.cluster_q as usize) / 255).max(1);
@@ -446,7 +493,7 @@ pub fn def() -> PropDef {
             }),
             Box::new(PropSub {
                 name: "clustered_keys",
-                rule: "adversarial u64 keys found by search with the reference hash: a cluster of up to 0.75 * 2^lg keys (lg 3..=11) that all share one home slot of the item map (probe distances up to the cluster size, beyond 255 for lg >= 9), offered in random order with random weights, followed by 0..3000 ordinary keys (purges), then the cluster once more; the same exact-frequency oracle as above at four points. non-trivial = cluster of at least 8 keys",
+                rule: "adversarial u64 keys found by search with the reference hash: a cluster of up to 0.75 * 2^lg keys (lg 3..=11) that all share one home slot of the item map (probe distances up to the cluster size, beyond 255 for lg >= 9), offered in random order with random weights, followed by 0..3000 ordinary keys (purges), then the cluster once more; one case in five instead offers capacity+1.. ordinary keys whose weight depends on their home slot (the keys in the lowest slots are heavy: a purge sampling in slot order would see a biased median, which the maximum_error <= epsilon * total_weight clause exposes); the same exact-frequency oracle as above at three or four points. non-trivial = cluster of at least 8 keys",
                 cases_quick: 6_000,
                 cases_thorough: 60_000,
                 max_shrink_iters: 60,
